@@ -62,17 +62,24 @@ type sessCall struct {
 	After   bool
 	Keys    bson.D
 	Unique  bool
+	Name    string
 }
 
 func (c *sessCall) isWrite() bool {
 	switch c.M {
-	case "find", "findOne", "count", "listIndexes":
+	case "find", "findOne", "count", "listIndexes", "estCount":
 		return false
 	}
 	return true
 }
 
-func (c *sessCall) directBegin() bool { return c.M == "createIndex" || c.M == "dropCollection" }
+func (c *sessCall) directBegin() bool {
+	switch c.M {
+	case "createIndex", "dropCollection", "createCollection", "dropIndex", "dropAllIndexes":
+		return true
+	}
+	return false
+}
 
 func (c *sessCall) handle() lungo.Handle { return lungo.Handle{sessDB, c.Coll} }
 
@@ -113,7 +120,12 @@ func (c *sessCall) fields() string {
 		sortOpt()
 	case "createIndex":
 		sb.WriteString(`,"keys":` + vj.Enc(c.Keys) + `,"unique":` + strconv.FormatBool(c.Unique) + `,"expiry":0`)
-	case "dropCollection", "listIndexes":
+	case "findOneAndDelete":
+		sb.WriteString(`,"q":` + vj.Enc(c.Q))
+		sortOpt()
+	case "dropIndex":
+		sb.WriteString(`,"name":` + run.JS(c.Name))
+	case "dropCollection", "listIndexes", "estCount", "createCollection", "dropAllIndexes":
 	}
 	return sb.String()
 }
@@ -400,6 +412,33 @@ func (m *sessRunner) exec(ctx context.Context, c *sessCall) (reply string, panic
 			return sessErrReply(err), ""
 		}
 		return sessUnitReply, ""
+	case "createCollection":
+		if err := m.client.Database(sessDB).CreateCollection(ctx, c.Coll); err != nil {
+			return sessErrReply(err), ""
+		}
+		return sessUnitReply, ""
+	case "dropIndex":
+		if _, err := coll.Indexes().DropOne(ctx, c.Name); err != nil {
+			return sessErrReply(err), ""
+		}
+		return sessUnitReply, ""
+	case "dropAllIndexes":
+		if _, err := coll.Indexes().DropAll(ctx); err != nil {
+			return sessErrReply(err), ""
+		}
+		return sessUnitReply, ""
+	case "estCount":
+		n, err := coll.EstimatedDocumentCount(ctx)
+		if err != nil {
+			return sessErrReply(err), ""
+		}
+		return fmt.Sprintf(`{"ok":{"n":%d}}`, n), ""
+	case "findOneAndDelete":
+		o := options.FindOneAndDelete()
+		if c.HasSort {
+			o.SetSort(c.Sort)
+		}
+		return sessSingleReply(coll.FindOneAndDelete(ctx, c.Q, o)), ""
 	case "listIndexes":
 		csr, err := coll.Indexes().List(ctx)
 		return sessCursorReply(csr, err), ""
